@@ -43,7 +43,8 @@ Drop(f, x)   == [y \in (DOMAIN f) \ {x} |-> f[y]]
 Min(a, b)    == IF a <= b THEN a ELSE b
 Near(a, b)   == a - b <= 2 /\ b - a <= 2          \* microsecond rounding of nanosecond clocks
 
-NoCust == [loc |-> "none", k |-> 0, att |-> 0, pri |-> 0, dts |-> 0, mark |-> FALSE, via |-> "", t0 |-> 0, d0 |-> 0, qnow |-> 0]
+NoCust == [loc |-> "none", k |-> 0, att |-> 0, pri |-> 0, dts |-> 0, mark |-> FALSE, via |-> "", t0 |-> 0, d0 |-> 0, qnow |-> 0,
+           pass |-> 0]     \* pass: scans of its channel that ended while it sat there past its deadline (AQSDone)
 NewChan(t) == [t |-> t, st |-> "new", paused |-> FALSE, ppend |-> {}, emptying |-> FALSE, recv |-> 0, nreq |-> 0, nto |-> 0]
 NewClient == [c |-> "", tmo |-> 0, sample |-> 0, rdy |-> 0, pend |-> {}, ready |-> FALSE, sends |-> <<>>,
               nfin |-> 0, nreq |-> 0, nmsg |-> 0, sigAt |-> 0, sigNow |-> 0, evalAt |-> 0]
@@ -86,13 +87,14 @@ APutAck(t, ids) ==
 
 \* C03: a paused topic hands nothing more to its channels.  C01: every owed, still-existing channel is in the
 \* pump's channel list; the previous message has been copied to all of them.
-ATake(t, id, chans) ==
+\* def: the deferral the pump's copy of the message carries (0 once it has been through the topic's disk queue)
+ATake(t, id, chans, def) ==
   /\ <<t, id>> \in tq
   /\ ~Has(copying, t)
   /\ Has(top, t) => top[t].paused # "yes"
   /\ \A c \in owed[<<t, id>>] : (chan[c].st = "live") => c \in chans
   /\ tq' = tq \ {<<t, id>>}
-  /\ copying' = copying @@ (t :> [id |-> id, rem |-> chans])
+  /\ copying' = copying @@ (t :> [id |-> id, rem |-> chans, def |-> def])
   /\ UNCHANGED <<minfo, owed, chan, top, cust, cl, done, stash>>
 
 ACopyFail(c, id) ==
@@ -183,6 +185,7 @@ ACPutBegin(c, id, att, now) ==
   /\ LET t == chan[c].t  cu == Cu(c, id) IN
      \/ /\ cu.loc = "none"                                  \* (a)
         /\ Has(copying, t) /\ copying[t].id = id /\ c \in copying[t].rem
+        /\ copying[t].def = 0                               \* C04: a deferred publish is deferred on EVERY channel
         /\ att = 0
         /\ copying' = [copying EXCEPT ![t].rem = @ \ {c}]
         /\ cust' = cust @@ (<<c, id>> :> [NoCust EXCEPT !.loc = "Q", !.mark = FALSE, !.qnow = now])
@@ -252,10 +255,10 @@ AIFPush(c, id, k, att, pri) ==
   /\ Tracked(c)
   /\ LET cu == Cu(c, id) IN
      \/ /\ cu.loc = "P" /\ cu.k = k /\ att = cu.att + 1
-        /\ cust' = [cust EXCEPT ![<<c, id>>].loc = "F", ![<<c, id>>].att = att, ![<<c, id>>].pri = pri]
+        /\ cust' = [cust EXCEPT ![<<c, id>>].loc = "F", ![<<c, id>>].att = att, ![<<c, id>>].pri = pri, ![<<c, id>>].pass = 0]
         /\ done' = done
      \/ /\ cu.loc = "L" /\ cu.via = "touch" /\ cu.k = k /\ att = cu.att
-        /\ cust' = [cust EXCEPT ![<<c, id>>].loc = "F", ![<<c, id>>].pri = pri]
+        /\ cust' = [cust EXCEPT ![<<c, id>>].loc = "F", ![<<c, id>>].pri = pri, ![<<c, id>>].pass = 0]
         /\ done' = Credit(k, id, "touch")
   /\ UNCHANGED <<minfo, tq, owed, copying, chan, top, cl, stash>>
 
@@ -350,7 +353,7 @@ ADefPush(c, id, pri) ==
         /\ chan' = [chan EXCEPT ![c].recv = @ + 1]
         /\ done' = done
      \/ /\ cu.loc = "L" /\ cu.via = "req" /\ cu.d0 > 0        \* REQ with a delay
-        /\ cust' = [cust EXCEPT ![<<c, id>>].loc = "D", ![<<c, id>>].pri = pri]
+        /\ cust' = [cust EXCEPT ![<<c, id>>].loc = "D", ![<<c, id>>].pri = pri, ![<<c, id>>].pass = 0]
         /\ done' = Credit(cu.k, id, "d")
         /\ UNCHANGED <<copying, chan>>
   /\ UNCHANGED <<minfo, tq, owed, top, cl, stash>>
@@ -367,6 +370,16 @@ AScan(c, id, t, pri, now, l) ==
   /\ pri <= t /\ t <= now
   /\ (Tracked(c) /\ Cu(c, id).loc = l) => pri = Cu(c, id).pri
   /\ UNCHANGED vars
+
+\* C04 "soon after" (and C01: it does come back): a scan of a channel takes everything that is due.  A message that sits
+\* in flight or deferred past its deadline is not passed over by three scans of its channel in a row (one may be lost to
+\* a deadline entered while the scan ran, or to a scan that met a stale heap entry and left the rest for the next tick).
+AQSDone(c, t) ==
+  /\ IF ~Tracked(c) \/ chan[c].st # "live" THEN cust' = cust
+     ELSE LET due == {x \in DOMAIN cust : x[1] = c /\ cust[x].loc \in {"D", "F"} /\ cust[x].pri + 2 < t} IN
+          /\ \A x \in due : cust[x].pass < 2
+          /\ cust' = [x \in DOMAIN cust |-> IF x \in due THEN [cust[x] EXCEPT !.pass = @ + 1] ELSE cust[x]]
+  /\ UNCHANGED <<minfo, tq, owed, copying, chan, top, cl, done, stash>>
 
 AScanTimedOut(c, id, k) ==
   /\ IF ~Tracked(c) THEN UNCHANGED <<cust, chan>>
